@@ -386,7 +386,8 @@ impl PrivateBatchProver {
 /// this only improves failure latency and error quality.
 fn ensure_leaf_batch_compatible(proofs: &[ProofWithPublicInputs<F, C, D>]) -> Result<()> {
     use crate::private_batch::circuit::constants::{
-        ASSET_ID_START, BLOCK_HASH_START, NULLIFIER_START, VOLUME_FEE_BPS_START,
+        ASSET_ID_START, BLOCK_HASH_START, EXIT_1_START, EXIT_2_START, NULLIFIER_START,
+        OUTPUT_AMOUNT_1_START, OUTPUT_AMOUNT_2_START, VOLUME_FEE_BPS_START,
     };
     use std::collections::HashMap;
 
@@ -470,6 +471,36 @@ fn ensure_leaf_batch_compatible(proofs: &[ProofWithPublicInputs<F, C, D>]) -> Re
             "every supplied leaf proof is all-dummy (block_hash == 0): such a batch \
              settles nothing; supply at least one real leaf proof"
         );
+    }
+
+    // Grouped exit sums: the circuit sums the (dummy-masked) output amounts per
+    // exit account and range-checks every group sum to 32 bits, so a batch whose
+    // real proofs pay more than u32::MAX to one account is unprovable. Mirror
+    // that here so it is rejected at commit time instead of after the expensive
+    // recursive proving run.
+    let mut group_sums: HashMap<[u64; 4], u128> = HashMap::new();
+    for (proof, meta) in proofs.iter().zip(&metas) {
+        if meta.block_hash == [0u64; 4] {
+            continue; // dummy slots are masked to (zero account, 0) in-circuit
+        }
+        for (exit_start, amount_start) in [
+            (EXIT_1_START, OUTPUT_AMOUNT_1_START),
+            (EXIT_2_START, OUTPUT_AMOUNT_2_START),
+        ] {
+            let exit: [u64; 4] =
+                core::array::from_fn(|i| proof.public_inputs[exit_start + i].to_canonical_u64());
+            let amount = proof.public_inputs[amount_start].to_canonical_u64() as u128;
+            let sum = group_sums.entry(exit).or_insert(0);
+            *sum += amount;
+            if *sum > u32::MAX as u128 {
+                bail!(
+                    "the real leaf proofs in this batch pay a total of {} to one exit account, \
+                     which exceeds the 32-bit limit the private-batch circuit enforces on every \
+                     grouped exit sum; split them across batches",
+                    *sum
+                );
+            }
+        }
     }
     Ok(())
 }
